@@ -302,6 +302,49 @@ def _cpu_conv_s4_pair(net):
     return True
 
 
+@inst("late_cpu_reader")
+def _late_cpu_reader(net):
+    """y = ADD(x, const) on the NPU, then a CPU operator (NEG) that still reads x: x must survive the in-place-eligible ADD"""
+    x = net.cur
+    if not _binary(net, "ADD", "const"):
+        return False
+    y = net.cur
+    t = net.T(x)
+    z = net.act(t["shape"], t["dtype"])
+    net.op("NEG", [x], [z], ("NegOptions", {}))
+    net.cur = y
+    return True
+
+
+@inst("skip_over_cpu")
+def _skip_over_cpu(net):
+    """y = ADD(x, const) [NPU]; w = NEG(y) [CPU]; out = ADD(x, w) [second NPU subgraph reads x again]"""
+    x = net.cur
+    t = net.T(x)
+    if t["dtype"] not in ("int8", "uint8", "int16") or not _binary(net, "ADD", "const"):
+        return False
+    y = net.cur
+    w = net.act(t["shape"], t["dtype"], q=(net.scale(y), net.zp(y)))
+    net.op("NEG", [y], [w], ("NegOptions", {}))
+    out = net.act(t["shape"], t["dtype"])
+    net.op("ADD", [x, w], [out], ("AddOptions", dict(FusedActivationFunction=0)))
+    return True
+
+
+def _cpu_sub_f32(net, pot):
+    """float32 side branch with a SUB that stays on the CPU and carries a non-default option value"""
+    a = net.act([1, 2, 2, 4], "float32", name="fsa%d" % len(net.tensors), noquant=True)
+    net.inputs.append(a)
+    y = net.act([1, 2, 2, 4], "float32", noquant=True)
+    keep = net.cur
+    net.op("SUB", [a, a], [y], ("SubOptions", dict(FusedActivationFunction=0, PotScaleInt16=pot)))
+    net.cur = keep
+    return True
+
+
+inst("cpu_sub_nopot")(lambda n: _cpu_sub_f32(n, False))
+
+
 @inst("conv_then_c1")
 def _conv_then_c1(net):
     """a 16-channel convolution followed by a 1-channel one: on a dual-core part the second operator has a weight stream for core 0 only,
@@ -618,6 +661,7 @@ def _pad(net, pads):
 
 inst("pad_hw")(lambda n: _pad(n, [[0, 0], [1, 1], [1, 1], [0, 0]]))
 inst("pad_c")(lambda n: _pad(n, [[0, 0], [0, 0], [0, 0], [0, 3]]))
+inst("pad_nc", "t")(lambda n: _pad(n, [[1, 1], [0, 0], [0, 0], [2, 2]]))
 inst("pad_hw_asym", "t")(lambda n: _pad(n, [[0, 0], [0, 1], [0, 1], [0, 0]]))
 
 
@@ -831,7 +875,7 @@ SIGMA_Q = [
     "conv1x1", "conv3x3", "conv3x3s2", "conv3x3v_relu6", "conv3x3d2", "dw3x3", "dw3x3s2", "fc", "maxpool2x2",
     "avgpool2x2", "avgpool3x3same", "add_res", "add_const", "add_scalar", "add_bcast_h", "sub_const", "mul_const",
     "min_const", "relu", "leaky_relu", "logistic", "tanh", "hard_swish", "reshape", "concat", "split", "strided_slice",
-    "pad_hw", "pad_c", "mean", "resize_nn2", "quantize", "tconv_s2", "softmax", "cpu_d2s", "cpu_custom", "conv_dynw", "cpu_neg", "tap", "branch_cpu", "branch_npu", "conv_dynw_nobias", "cpu_custom_opt", "conv3x3_c1", "slice", "conv_again", "conv_pair_shared", "reshape_requant", "fc_fc_sq", "conv_c3_sq", "cpu_conv_s4", "cpu_conv_s4_pair", "logistic_coarse", "c24_reshape_w_relu", "conv_then_c1", "cpu_squeeze0",
+    "pad_hw", "pad_c", "mean", "resize_nn2", "quantize", "tconv_s2", "softmax", "cpu_d2s", "cpu_custom", "conv_dynw", "cpu_neg", "tap", "branch_cpu", "branch_npu", "conv_dynw_nobias", "cpu_custom_opt", "conv3x3_c1", "slice", "conv_again", "conv_pair_shared", "reshape_requant", "fc_fc_sq", "conv_c3_sq", "cpu_conv_s4", "cpu_conv_s4_pair", "logistic_coarse", "c24_reshape_w_relu", "conv_then_c1", "cpu_squeeze0", "late_cpu_reader", "skip_over_cpu", "cpu_sub_nopot",
 ]
 SIGMA_T = SIGMA_Q + [n for n, (_, tags) in INSTANCES.items() if "t" in tags]
 SIGMA_C = [n for n, (_, tags) in INSTANCES.items() if "c" in tags]
